@@ -241,6 +241,12 @@ class Encoder:
             return ["retnone"] if s.value is None else ["ret", E(s.value)]
         if isinstance(s, ast.Pass) or (isinstance(s, ast.Expr) and isinstance(s.value, ast.Constant)):
             return ["skip"]
+        if isinstance(s, (ast.Import, ast.ImportFrom)):
+            # function-local imports (ctx.modules / ctx.fns) are not modelled: oracle-only stratum
+            self.features.add("local_import")
+            if any(a.asname for a in s.names):
+                self.features.add("local_import_alias")
+            return ["skip"]  # so that the side-condition flags are still computed for the rest of the body
         self.features.add("opaque_stmt")
         return ["opaque"]
 
@@ -615,7 +621,88 @@ def hmd(a, b, c=0.25, *, e=8.0, w):
 
 def hone(a, r=0.25):
     return a * r
+
+
+def hcomb(a, b):
+    return hmul(a, b) - hsub(a, b) + HC
 '''
+
+# a second module with the same names bound to other functions / values (function-local imports pick from here)
+HELPER2_SRC = '''"""second helper module for generated C06 inputs: same names as the first, different meanings"""
+HC = 0.25
+HD = 8.0
+
+
+def hsub(a, b):
+    return b - a
+
+
+def hmul(a, b):
+    return a * b + 1
+
+
+def hclip(x, lo):
+    return x + lo
+
+
+def hmix(p, q):
+    return p + q * 4
+'''
+
+LOCAL_IMPORTS = ["from c06g import hmul", "from c06g import hclip", "from c06g import HD", "from c06g import hsub, hmul",
+                 "import c06g", "import c06g as hp", "from c06g import hsub as hmul", "from c06g import hmul as hclip",
+                 "from c06g import HC as HD"]
+
+
+def local_import_sources() -> list[str]:
+    """function-local imports in the caller and / or the callee, with the imported name colliding with a module-level name
+    of the other side (seed-independent stratum).  Python binds the imported name in the importing function only."""
+    base = '''def base_mul(a, b):
+    return hmul(a, b) + hp.hsub(a, b) + HD
+
+
+def base_clip(a, b):
+    return hclip(a, b) * hp.HC
+
+
+def loc_mul(a, b):
+    from c06g import hmul
+    return hmul(a, b)
+
+
+def loc_clip(a, b):
+    from c06g import hclip, HD
+    return hclip(a, b) - HD
+
+
+def loc_mod(a, b):
+    import c06g
+    return c06g.hsub(a, b) + hp.hsub(a, b)
+'''
+    bodies = [
+        "return hmul(x, y) + HD",
+        "return base_mul(x, y)",
+        "return base_mul(x, y) + hmul(y, x)",
+        "return base_clip(x, y) - hclip(x, 1)",
+        "return hp.hcomb(x, y)",
+        "return hp.hcomb(x, y) + hp.hsub(x, y)",
+        "t = base_mul(x, y)\n    if t > 1:\n        return base_clip(t, y)\n    return hmul(t, y)",
+    ]
+    out = [base]
+    k = 0
+    for imp in LOCAL_IMPORTS:
+        for b in bodies:
+            out.append(f"def li{k}(x, y):\n    {imp}\n    {b}\n")
+            k += 1
+    # the callee imports; the caller uses the name with its own module-level meaning before / after the call
+    for callee in ("loc_mul", "loc_clip", "loc_mod"):
+        for b in ("t = {c}(x, y)\n    return hmul(t, y) + hclip(t, 1) + HD",
+                  "t = hmul(x, y)\n    u = {c}(t, y)\n    return hmul(u, t) - hp.hsub(u, t)",
+                  "return hclip({c}(x, y), {c}(y, x))"):
+            out.append(f"def li{k}(x, y):\n    {b.format(c=callee)}\n")
+            k += 1
+    return out
+
 
 HELPERS = [("hsub", 2), ("hmul", 2), ("hclip", 2), ("hmix", 2), ("hsel", 3)]
 
@@ -870,10 +957,12 @@ class Gen:
         if r.random() < 0.06:
             params[-1] = r.choice(["K2", "HD"])  # a parameter that shadows a module constant
         style = r.choice(["ret", "ret", "assign", "mixed", "mixed"])
-        body, _, ret = self.block(params, r.choice([0, 1, 1, 2, 2]), 1, False, style)
+        body, _, ret = self.block(params, r.choice([0, 1, 1, 2, 2, 2]), 1, False, style)
         if not ret and r.random() < 0.9:
             vs = params
             body.append(f"    return {self.arith(vs + [v for v in LOCAL_POOL if any(l.strip().startswith(v + ' =') and l.startswith('    ' + v) for l in body)], 2)}")
+        if r.random() < 0.04:
+            body.insert(0, "    " + r.choice(LOCAL_IMPORTS[:5]))
         ndef = r.choice([1, 2, k]) if k >= 2 and r.random() < 0.2 else 0
         ndef = min(ndef, k - 1)
         sig = [p if i < k - ndef else f"{p}={r.choice(['2.0', '0.5', '4.0', '1.0', '-2.0'])}" for i, p in enumerate(params)]
@@ -1036,7 +1125,27 @@ def exhaustive_bodies() -> list[str]:
         shapes.append([("if " + conds[0], b1), ("elif " + conds[1], b2)])
     for b1, b2, b3 in itertools.product(branch, repeat=3):
         shapes.append([("if " + conds[0], b1), ("elif " + conds[1], b2), ("else", b3)])
+    # depth 2: one branch is itself "a nested if (without else) followed by more statements"
+    tails = ["return y", "t = 3 * x\nreturn t", "t = 3 * x"]
+    composites = ["if y > 1:\n" + "\n".join("    " + l for l in b.split("\n")) + "\n" + tl
+                  for b in branch for tl in tails]
+    deep: list[list[tuple[str, str]]] = []
+    for comp, b in itertools.product(composites, branch):
+        deep.append([("if " + conds[0], comp), ("else", b)])
+        deep.append([("if " + conds[0], b), ("else", comp)])
+        deep.append([("if " + conds[0], b), ("elif " + conds[1], comp)])
+    for comp in composites:
+        deep.append([("if " + conds[0], comp)])
+        deep.append([("if " + conds[0], "return x"), ("elif " + conds[1], comp), ("else", "return y")])
     out = []
+    for shape, post in itertools.product(deep, ["return y", ""]):
+        lines = []
+        for head, body in shape:
+            lines.append(head + ":")
+            lines += ["    " + l for l in body.split("\n")]
+        if post:
+            lines.append(post)
+        out.append("\n".join("    " + l for l in lines))
     for pre, shape, post in itertools.product(pres, shapes, posts):
         lines = [pre] if pre else []
         for head, body in shape:
@@ -1177,12 +1286,37 @@ def evaluate_module(job):
     else:
         for name, src in job["sources"].items():
             _write_atomic(workdir / f"{name}.py", src)
-        helper = import_fresh(workdir, job["helper"])
-        mod = import_fresh(workdir, job["mod"])
-        gen_modules = {job["helper"]: helper, job["mod"]: mod}
+        gen_modules = {}
+        for name in [n for n in job["sources"] if n != job["mod"]] + [job["mod"]]:
+            gen_modules[name] = import_fresh(workdir, name)
+        mod = gen_modules[job["mod"]]
     rng = random.Random(job["seed"])
     out = []
-    for fname in job["fns"]:
+    first = _observe_all(job, mod, gen_modules, rng, job["fns"], sympy)
+    out += first
+    if job.get("session"):
+        # session step: the same process, the same module objects, module-level constants re-bound; every function that
+        # reads a module constant is translated (and executed) again
+        for mname, consts in job["session"].items():
+            target = gen_modules.get(mname)
+            for cname, val in consts.items():
+                if target is not None and hasattr(target, cname):
+                    setattr(target, cname, float(Fraction(val)))
+        again = [r["fn"] for r in first if "error" not in r and
+                 any(f.startswith(("global_", "attr_")) for f in r["features"])]
+        if job.get("session_only"):
+            out = []
+        job2 = dict(job, points={r["fn"]: r["points"] for r in first if "error" not in r},
+                    renamings={r["fn"]: [o["rename"] for o in r["obs"]] for r in first if "error" not in r})
+        for r in _observe_all(job2, mod, gen_modules, rng, again, sympy):
+            r["session2"] = True
+            out.append(r)
+    return out
+
+
+def _observe_all(job, mod, gen_modules, rng, fns, sympy):
+    out = []
+    for fname in fns:
         fn = getattr(mod, fname)
         enc = Encoder(job["known_keys"], gen_modules)
         try:
